@@ -26,6 +26,8 @@ type gnode struct {
 	Kw     string  `json:"kw,omitempty"`
 	Op     int     `json:"op,omitempty"`
 	AsType string  `json:"as,omitempty"` // "", "alias": nested stack stored as an alias value
+	// EncList, when set, is the encapsulation scheme itself (used by C18, whose machines build arbitrary lists)
+	EncList [][]string `json:"-"`
 }
 
 var encLists = [][]any{nil, {`"`}, {[]string{"(", ")"}}, {[]string{"(", ")"}, `"`}, {[]string{"[", "]"}, []string{"<"}}}
@@ -162,7 +164,11 @@ func (n gnode) ref() string {
 		var e string
 		switch k.T {
 		case "leaf":
-			e = refEncap(encModel[n.Enc], fmt.Sprint(k.leaf()))
+			enc := encModel[n.Enc]
+			if n.EncList != nil {
+				enc = n.EncList
+			}
+			e = refEncap(enc, fmt.Sprint(k.leaf()))
 			if e != "" {
 				e = pad(n.NoPad) + e + pad(n.NoPad)
 			}
